@@ -13,12 +13,16 @@ one() {
     echo "| $name | $prop | patch does not apply to the current HEAD (written against an earlier tree) |"
   else
     log=$tmp/$name.log
-    REPO_ROOT=$wt VERIF_EVIDENCE_DIR=$tmp/ev ./check $prop --tier quick > $log 2>&1
-    rc=$?
+    # the checks that are expected to notice it: the seed's own property unless meta.json names others ("checks")
+    props=$(python3 -c "import json,sys; print(' '.join(json.load(open('$PWD/$d/meta.json')).get('checks', ['$prop'])))" 2>/dev/null || echo $prop)
+    rc=0; : > $log
+    for p in $props; do
+      REPO_ROOT=$wt VERIF_EVIDENCE_DIR=$tmp/ev ./check $p --tier quick >> $log 2>&1 || rc=1
+    done
     with_input=$(grep "VIOLATION" $log | grep -vc "no-failing-input-found")
     without=$(grep "VIOLATION" $log | grep -c "no-failing-input-found")
     if [ $rc -eq 0 ]; then res="MISSED (exit 0)"; else res="caught: $with_input with failing input, $without without"; fi
-    echo "| $name | $prop | $res |"
+    echo "| $name | $prop | $res${props:+ (checks: $props)} |"
   fi
   git -C /repo worktree remove --force $wt 2>/dev/null
 }
